@@ -587,7 +587,7 @@ func TestC20(t *testing.T) {
 		}
 		run.Journal(id, "")
 		var res []*c01Result
-		err := Bubble(t, func() { res = runC20Blackhole(run, run.Seed()*43+int64(i), i%4) })
+		err := Bubble(t, func() { res = runC20Blackhole(run, run.Seed()*43+int64(i), i%4, i%2 == 1) })
 		if err != nil {
 			res = append(res, &c01Result{"C20/bubble", err.Error()})
 		}
@@ -636,7 +636,7 @@ func TestC20(t *testing.T) {
 		}
 	}
 	if !run.Replaying() {
-		run.Require("blackhole|health=0", "real-stalled-peer|Leave(300ms)", "last-standing|Leave|peers=1", "last-standing|UpdateNode|peers=1", "real-stalled-delegate|Shutdown")
+		run.Require("blackhole|health=0|hung=false", "blackhole|health=1|hung=true", "real-stalled-peer|Leave(300ms)", "last-standing|Leave|peers=1", "last-standing|UpdateNode|peers=1", "real-stalled-delegate|Shutdown")
 	}
 	nr := run.Pick(32, 4000)
 	for i := 0; i < nr; i++ {
